@@ -66,8 +66,12 @@ func drainChannel[T any](ch <-chan T) {
 
 func cleanInfiniteChannel(ch *channels.InfiniteChannel) {
 	ch.Close()
-	// drain all remaining items
-	drainChannel(ch.Out())
+	// drain all remaining items. The pump goroutine of the InfiniteChannel
+	// terminates (and closes Out) only once its buffer is empty, and it may
+	// not have offered the next item yet, so a non-blocking drain can return
+	// early and leave the pump blocked forever. Block until Out is closed.
+	for range ch.Out() {
+	}
 }
 
 // Returns the binary formatted Administrative Shutdown Communication from the
